@@ -69,6 +69,14 @@ def _in_message(node):
   return False
 
 
+def _is_literal(e):
+  try:
+    ast.literal_eval(e)
+    return True
+  except Exception:
+    return False
+
+
 def atoms(fn):
   """{'call': {callee: [[pos texts], {kw: text}, splat, line]}, 'cmp': {...}, 'idx': {...}, 'bin': {...}} with only unique keys kept."""
   calls, cmps, idxs, bins = {}, {}, {}, {}
@@ -80,7 +88,7 @@ def atoms(fn):
         continue
       pos = [astu.src(a) for a in n.args]
       kws = {k.arg: astu.src(k.value) for k in n.keywords if k.arg is not None}
-      kinds = {k.arg: ('const' if isinstance(k.value, ast.Constant) else 'expr') for k in n.keywords if k.arg is not None}
+      kinds = {k.arg: ('const' if _is_literal(k.value) else 'expr') for k in n.keywords if k.arg is not None}
       splat = any(k.arg is None for k in n.keywords) or any(isinstance(a, ast.Starred) for a in n.args)
       own_kw = fn.args.kwarg.arg if getattr(fn, 'args', None) is not None and fn.args.kwarg is not None else None
       own_va = fn.args.vararg.arg if getattr(fn, 'args', None) is not None and fn.args.vararg is not None else None
@@ -335,12 +343,13 @@ def _skel(n, leaves, strip=None):
       strip[0] += 1
       return _skel(n.func.value, leaves, strip)
   if isinstance(n, ast.Name):
-    leaves.append(n.id)
+    # an assignment target is marked: binding another name is how temporaries are introduced, not a change of the value that flows
+    leaves.append(('=' if isinstance(n.ctx, (ast.Store, ast.Del)) else '') + n.id)
     return '_'
   if isinstance(n, ast.Attribute):
     d = astu.dotted(n)
     if d is not None:
-      leaves.append(d)
+      leaves.append(('=' if isinstance(n.ctx, (ast.Store, ast.Del)) else '') + d)
       return '_'
   if isinstance(n, ast.Constant):
     if isinstance(n.value, str):
@@ -435,10 +444,10 @@ def compare_statements(R, f, ref, now):
   """ref / now: lists of [skeleton hash, leaves, line]."""
   rv = set(ref['params'])
   for h, leaves, _l in ref['stmts']:
-    rv.update(leaves)
+    rv.update(x.lstrip('=') for x in leaves)
   nv = set(astu.params(f.node))
   for h, leaves, _l in now:
-    nv.update(leaves)
+    nv.update(x.lstrip('=') for x in leaves)
   ref_exact = {(h, tuple(l)) for h, l, _ in ref['stmts']}
   now_exact = {(h, tuple(l)) for h, l, _ in now}
   n = 0
@@ -460,6 +469,8 @@ def compare_statements(R, f, ref, now):
     if len(others) != 1:
       continue
     old, new = rl[i], nl[i]
+    if old.startswith('=') or new.startswith('='):
+      continue
     n += 1
     if _is_ident(old) and _is_ident(new) and _aliases(f, old, new):
       continue  # `new` is a local holding the value of `old` (t = old ... use t): the same value flows here
